@@ -45,6 +45,8 @@ def render_neat(toks, delim):
             out += '\\<'
         elif k == 'wend':
             out += '\\>'
+        elif k in ('alt', 'lp', 'rp'):
+            out += {'alt': '|', 'lp': '(', 'rp': ')'}[k]
         if st:
             out += '*'
     return out
@@ -69,6 +71,8 @@ def render_py(toks):
             out += '(?<![%s])(?=[%s])' % (W, W)
         elif k == 'wend':
             out += '(?<=[%s])(?![%s])' % (W, W)
+        elif k in ('alt', 'lp', 'rp'):
+            out += {'alt': '|', 'lp': '(', 'rp': ')'}[k]
         if st:
             out += '*'
     return out
@@ -91,6 +95,19 @@ FIXED_PATTERNS = [
     [['bol', 0, 0], ['cls', [0, [['a', 'b']]], 1]], [['lit', 'b', 0], ['lit', 'a', 1]],
     [['any', 0, 0], ['eol', 0, 0]], [['bol', 0, 0], ['any', 0, 0]],
 ]
+
+def L(w):
+    return [['lit', c, 0] for c in w]
+
+
+B_, A_, LP, RP, E_ = ['bol', 0, 0], ['alt', 0, 0], ['lp', 0, 0], ['rp', 0, 0], ['eol', 0, 0]
+# a pattern that starts with ^ and has an unanchored alternative: the fast-path test "lbeg && NOTBOL" must not apply
+ALT_PATTERNS = [
+    [B_] + L('a') + [A_] + L('b'), [B_] + L('foo') + [A_] + L('bar'), [LP, B_] + L('a') + [A_] + L('b') + [RP] + L('a'),
+    [B_, ['cls', [0, [['a', 'b']]], 0]] + L('b') + [A_] + L('a'), [B_, E_, A_] + L('a'), [B_] + L('ab') + [A_] + L('ba'),
+    [B_, ['cls', [0, [['f', 'f']]], 0]] + L('oo') + [A_] + L('r'), L('b') + [A_, B_] + L('a'),
+]
+ALT_TEXTS = [['foo bar bar', 'bar foo bar', 'xbar', ''], ['abab ba', 'baab', '', 'aabb'], ['a b a b', 'bb', 'ab'], ['éa bar é', 'foo', 'barbar']]
 
 TEXTS = [
     ['abab', 'ab'], ['xabab', '', 'ab'], ['aaaa', 'aa'], ['a b', ' ab ', 'b'], ['', '', 'a'], ['ab'],
@@ -393,7 +410,7 @@ def cases(ctx):
                         out.append({'text': text, 'ic': True, 'row': r, 'col': c, 'cmds': [[kind, toks, 1, '']], 'src': 'grid'})
     # sequences: / ? n N ^A with counts and line offsets on random texts
     for i in range(700 if ctx.quick else 12000):
-        text = gen_text(rng) if rng.chance(3, 4) else rng.choice(TEXTS)
+        text = gen_text(rng) if rng.chance(3, 4) else rng.choice(TEXTS + ALT_TEXTS)
         r = rng.below(len(text))
         c = rng.below(max(1, len(text[r])))
         cmds = []
@@ -404,7 +421,9 @@ def cases(ctx):
             t = rng.below(10)
             cnt = rng.choice([1, 1, 1, 2, 2, 3, 4])
             if not have or t < 4:
-                toks = gen_tokens(rng) if rng.chance(2, 3) else rng.choice(FIXED_PATTERNS)
+                toks = gen_tokens(rng) if rng.chance(2, 3) else rng.choice(FIXED_PATTERNS + ALT_PATTERNS)
+                if rng.chance(1, 10):
+                    toks = [B_] + gen_tokens(rng) + [A_] + [t for t in gen_tokens(rng) if t[0] != 'bol']
                 if havepat and rng.chance(1, 10):
                     toks = None                # empty pattern: the last one again
                 else:
@@ -420,6 +439,17 @@ def cases(ctx):
                 cmds.append(['A', None, cnt, ''])
                 have = True
         out.append({'text': text, 'ic': not rng.chance(1, 5), 'row': r, 'col': c, 'cmds': cmds, 'src': 'random'})
+    # patterns that start with ^ and have an unanchored branch: / ? with counts, then n / N, from every position
+    for text in ALT_TEXTS:
+        for toks in ALT_PATTERNS:
+            for r, line in enumerate(text):
+                for c in range(max(1, len(line))):
+                    for kind in '/?':
+                        for cnt in (1, 2):
+                            for more in ([], [['n', None, 1, '']], [['N', None, 1, '']], [['n', None, 2, '']]):
+                                if ctx.quick and not rng.chance(1, 8):
+                                    continue
+                                out.append({'text': text, 'ic': True, 'row': r, 'col': c, 'cmds': [[kind, toks, cnt, '']] + more, 'src': 'alt'})
     # ^A from every position
     for text in texts[:8]:
         for r, line in enumerate(text):
